@@ -98,6 +98,23 @@ fn gen_diff_javadoc<Target, Javadoc>(ab: Combination<&Target>) -> Action<Javadoc
 	}
 }
 
+/// The key of a parameter is its index, so a diff cannot state a name in the first namespace: a parameter that appears with
+/// one, or that has different ones on the two sides, has no diff.
+fn check_parameter_first_names<Target, Name, Mapping>(ab: Combination<&Target>) -> Result<()>
+	where
+		Target: NodeInfo<Mapping>,
+		Name: Clone + PartialEq,
+		Mapping: GetNames<2, Name>,
+{
+	let first_namespace = Namespace::new(0)?;
+
+	match ab.map(|target| target.get_node_info().get_names()[first_namespace].clone()) {
+		Combination::B(Some(_)) => bail!("cannot generate diff for the addition of a parameter with a name in the first namespace"),
+		Combination::AB(a, b) if a != b => bail!("cannot generate diff for a parameter whose name in the first namespace changes"),
+		_ => Ok(()),
+	}
+}
+
 fn gen_diff_names<Target, Name, Mapping>(ab: Combination<&Target>) -> Result<Action<Name>>
 	where
 		Target: NodeInfo<Mapping>,
@@ -143,10 +160,13 @@ impl MappingsDiff {
 							info: gen_diff_names(ab)?,
 							parameters: zip_map_combination(
 								ab.map(|x| &x.parameters),
-								|ab| Ok(ParameterNowodeDiff {
-									info: gen_diff_names(ab)?,
-									javadoc: gen_diff_javadoc(ab),
-								})
+								|ab| {
+									check_parameter_first_names(ab)?;
+									Ok(ParameterNowodeDiff {
+										info: gen_diff_names(ab)?,
+										javadoc: gen_diff_javadoc(ab),
+									})
+								}
 							)?,
 							javadoc: gen_diff_javadoc(ab),
 						})
